@@ -82,6 +82,7 @@ fn tokenize_multi(ops: &[MOp]) -> Vec<MOp> {
         .map(|op| match op {
             MOp::MpPrintln(t) => MOp::MpPrintln(tok(t, true)),
             MOp::BarPrintln(s, t) => MOp::BarPrintln(*s, tok(t, true)),
+            MOp::BarPrintlnUnwinding(s, t) => MOp::BarPrintlnUnwinding(*s, tok(t, false)),
             MOp::MpSuspend(ls) => MOp::MpSuspend(ls.iter().map(|l| tok(l, false)).collect()),
             MOp::BarSuspend(s, ls) => MOp::BarSuspend(*s, ls.iter().map(|l| tok(l, false)).collect()),
             o => o.clone(),
@@ -110,16 +111,19 @@ fn run_multi(c: &MultiCase) -> CaseResult {
         let ctx = format!("after op #{i} {op:?} ({}x{} terminal, hz {:?}, step {} ms, ops {:?})", it.rows, it.cols, c.hz, c.step_ms, &ops[..=i]);
         // also at every flush of this op (prefix of the log that existed then)
         for fr in &out.frames {
-            let upto = if matches!(op, MOp::MpSuspend(_) | MOp::BarSuspend(..)) && std::ptr::eq(fr, &out.frames[0]) { log_before } else { it.model.log.len() };
+            let upto = if matches!(op, MOp::MpSuspend(_) | MOp::BarSuspend(..)) && std::ptr::eq(fr, &out.frames[0]) { log_before } else if it.pending_text { it.pending_from } else { it.model.log.len() };
             check_tokens(&fr.rows, &it.model.log[..upto], it.cols, &ctx).map_err(|f| sig_kind(f, &it))?;
         }
         // what was written has also been flushed: on a buffering terminal (the default stderr target is one)
         // a line that is written but not flushed is not on the terminal yet
         ensure!(it.vt.unflushed() == 0, "log_not_flushed", "{ctx}: the call returned with {} write(s) that were never flushed", it.vt.unflushed());
         let rows = it.vt.rows();
-        let end = check_tokens(&rows, &it.model.log, it.cols, &ctx).map_err(|f| sig_kind(f, &it))?;
+        // (a line printed while the thread was unwinding is painted by the next draw; until then it is pending)
+        let shown = if it.pending_text { it.pending_from } else { it.model.log.len() };
+        v.label_if(it.pending_text, "line_printed_while_unwinding_pending");
+        let end = check_tokens(&rows, &it.model.log[..shown], it.cols, &ctx).map_err(|f| sig_kind(f, &it))?;
         if !it.model.bottom_ever {
-            check_blanks(&rows, &it.model.log, &ctx).map_err(|f| sig_kind(f, &it))?;
+            check_blanks(&rows, &it.model.log[..shown], &ctx).map_err(|f| sig_kind(f, &it))?;
         }
         // above the progress region: no live member's row above the last log row
         if !out.frames.is_empty() {
@@ -144,7 +148,10 @@ fn run_multi(c: &MultiCase) -> CaseResult {
     }
     it.teardown()?;
     let rows = it.vt.rows();
-    check_tokens(&rows, &it.model.log, it.cols, "after dropping everything").map_err(|f| sig_kind(f, &it))?;
+    // (a line still pending when everything is dropped: the final draws of dropped bars paint it, but a
+    // program whose bars are all finished or gone never draws again - only the lines shown before are required)
+    let shown = if it.pending_text { it.pending_from } else { it.model.log.len() };
+    check_tokens(&rows, &it.model.log[..shown], it.cols, "after dropping everything").map_err(|f| sig_kind(f, &it))?;
     v.nontrivial = it.model.log.len() >= 2 && draws_after_log >= 1 && (skipped_draw || zombie_present);
     v.label_if(skipped_draw, "skipped_draw");
     v.label_if(zombie_present, "zombie_or_retained_block");
@@ -207,6 +214,68 @@ fn multi_strategy(tier: Tier) -> BoxedStrategy<MultiCase> {
             MultiCase { rows, cols: cols as u16, hz, step_ms, ops: pre, final_drops: vec![] }
         })
         .boxed()
+}
+
+// ------------------------------------------------------------------------------------------
+// a flush that fails after the text was written
+
+#[derive(Debug, Clone, Serialize, Deserialize)]
+pub struct LateFaultCase {
+    multi: MultiCase,
+    /// the `at`-th flush of the history and the `n - 1` flushes after it fail (everything written before a
+    /// flush has reached the terminal)
+    at: u8,
+    n: u8,
+    kind: u8,
+}
+
+/// Whatever else a failing terminal may cost: a line that did reach the terminal is never painted a
+/// second time by a later draw.
+fn run_late_fault(c: &LateFaultCase) -> CaseResult {
+    use crate::vterm::{FaultMode, FaultPlan};
+    let _clk = clock::Armed::new();
+    let ops = tokenize_multi(&c.multi.ops);
+    let mut it = Interp::new(&c.multi);
+    let kinds = [std::io::ErrorKind::Other, std::io::ErrorKind::BrokenPipe, std::io::ErrorKind::WouldBlock, std::io::ErrorKind::Interrupted];
+    it.vt.set_fault(Some(FaultPlan { at: c.at as usize, mode: FaultMode::Flushes(c.n.max(1)), kind: kinds[c.kind as usize % kinds.len()] }));
+    let mut v = Verdict::default();
+    let mut text_after_fault = false;
+    for (i, op) in ops.iter().enumerate() {
+        clock::advance(Duration::from_millis(c.multi.step_ms as u64));
+        let fired_before = it.vt.lock().faults_fired;
+        let out = catch(|| it.step(op)).map_err(|p| Fail::new("panic", format!("op #{i} {op:?} panicked: {p} (flushes {}..{} fail, ops {:?})", c.at, c.at as usize + c.n.max(1) as usize, &ops[..=i])))??;
+        if out.skipped {
+            continue;
+        }
+        let fired = it.vt.lock().faults_fired;
+        let rows = it.vt.rows();
+        for (n, line) in it.model.log.iter().enumerate() {
+            let Some(token) = line.strip_prefix('~').and_then(|l| l.split('~').next()).map(|t| format!("~{t}~")) else { continue };
+            let count = rows.iter().filter(|r| r.contains(&token)).count();
+            ensure!(
+                count <= 1,
+                "log_duplicated_after_late_fault",
+                "after op #{i} {op:?}: log line #{n} {line:?} is on the terminal {count} times; {fired} flush(es) failed so far (flushes {}..{} fail); terminal rows {rows:?}; ops {:?}",
+                c.at,
+                c.at as usize + c.n.max(1) as usize,
+                &ops[..=i]
+            );
+        }
+        if fired > fired_before && matches!(op, MOp::MpPrintln(_) | MOp::BarPrintln(..)) {
+            v.label("flush_failed_in_a_draw_that_printed_text");
+            text_after_fault = true;
+        }
+    }
+    it.teardown()?;
+    let fired = it.vt.lock().faults_fired;
+    v.nontrivial = text_after_fault;
+    v.label_if(fired > 0, "flush_failed");
+    v.label_if(fired > 1, "several_flushes_failed");
+    Ok(v)
+}
+
+fn late_fault_strategy(tier: Tier) -> BoxedStrategy<LateFaultCase> {
+    (multi_strategy(tier), 0u8..40, 1u8..4, 0u8..4).prop_map(|(multi, at, n, kind)| LateFaultCase { multi, at, n, kind }).boxed()
 }
 
 // ------------------------------------------------------------------------------------------
@@ -380,6 +449,17 @@ pub fn property() -> Property {
                 essential: &["skipped_draw", "zombie_or_retained_block", "two_log_lines", "log_wraps", "frozen_clock_rate_limited", "bar_println"],
                 workers: w,
                 decode: Some(decode_c03_multi),
+            }),
+            Box::new(Gen::<LateFaultCase> {
+                name: "late_fault",
+                rule: "the multi histories again on a terminal whose k-th flush (k < 40) and up to two flushes after it fail with one of four error kinds - everything written before a flush has reached the screen: after every op no emitted token line is on the terminal more than once (a line that did get painted must not be painted again by a later draw); non-trivial = a flush failed in a draw that printed text",
+                strategy: late_fault_strategy,
+                cases: |t| t.pick(6_000, 400_000),
+                run: run_late_fault,
+                signature: no_signature,
+                essential: &["flush_failed", "several_flushes_failed", "flush_failed_in_a_draw_that_printed_text"],
+                workers: w,
+                decode: None,
             }),
             Box::new(Gen::<SingleCase> {
                 name: "single",
